@@ -318,6 +318,13 @@ def h_kernel_event(kind, vary='cut'):
         cut = eng.sym_int('cut', 0, len(data))
         k = eng.concretize(cut, 0, len(data)) if not isinstance(cut, int) else cut
         ev = bytearray(data[:k])
+    elif vary == 'flags':
+        # nlmsg_flags: each single bit and a few combinations (NLM_F_MULTI = 2 announces a multipart message that never continues)
+        choices = [1 << i for i in range(16)] + [0x3, 0x302, 0xFFFF]
+        c = eng.sym_int('nl_flags_choice', 0, len(choices) - 1)
+        fl = choices[eng.concretize(c, 0, len(choices) - 1) if not isinstance(c, int) else c]
+        ev = bytearray(data)
+        ev[6:8] = int(fl).to_bytes(2, 'little')
     else:
         ntype = eng.sym_int('nl_type', 0, 0x30)
         t = eng.concretize(ntype, 0, 0x30) if not isinstance(ntype, int) else ntype
@@ -373,7 +380,7 @@ def build_instances(tier):
     for kind in ('unknown_exchange', 'init_for_existing_spi', 'binary_vendor', 'binary_identity', 'init_sa_bytes', 'child_request_spi_size', 'child_response_spi_size'):
         inst.append(Instance(f'oddity {kind}', h_oddity, (kind,), native=nat(h_oddity), engine_kw={'max_ticks': 20000, 'max_wall_s': 600}))
     for kind in (('acquire', 'expire_known') if tier == 'quick' else ('acquire', 'acquire_unknown_index', 'acquire_unknown_peer', 'expire_unknown', 'expire_known')):
-        for vary in ('cut', 'type'):
+        for vary in ('cut', 'type', 'flags'):
             inst.append(Instance(f'kernel event {kind} vary={vary}', h_kernel_event, (kind, vary), native=nat(h_kernel_event)))
     if tier == 'quick':
         for kind in ('acquire_unknown_index', 'acquire_unknown_peer', 'expire_unknown'):
